@@ -198,7 +198,7 @@ def _load_oracle():
 def r1(ctx):
     oracle = _load_oracle()
     # ---------------------------------------------------------------- snapshots
-    b = ctx.fbody(name="update_from_order_snapshot", self_adt=ORDERS, trait=OM)
+    b = ctx.fibody(name="update_from_order_snapshot", self_adt=ORDERS, trait=OM)
     eff = _effects(ctx, b, "snapshot")
     ctx.floor("effect sites in update_from_order_snapshot", len(eff), 8)
     absn = Abstraction(ctx, "snapshot")
@@ -250,7 +250,7 @@ def r1(ctx):
                   "(entry state, report state, zero remaining, time order) - fail closed", sites=[sp], got=a, key=a[:80])
     ctx.extra["c01_cells_snapshot"] = n_cells
     # ---------------------------------------------------------------- cancel responses
-    b = ctx.fbody(name="update_from_cancel_response", self_adt=ORDERS, trait=OM)
+    b = ctx.fibody(name="update_from_cancel_response", self_adt=ORDERS, trait=OM)
     eff = _effects(ctx, b, "response")
     ctx.floor("effect sites in update_from_cancel_response", len(eff), 4)
     absn = Abstraction(ctx, "response")
@@ -294,7 +294,7 @@ def r3(ctx):
            ("record_in_flight_open", "barter::engine::state::order::in_flight_recorder::InFlightRequestRecorder", "request.key.cid")]
     n = 0
     for name, tr, key in fns:
-        b = ctx.fbody(name=name, self_adt=ORDERS, trait=tr)
+        b = ctx.fibody(name=name, self_adt=ORDERS, trait=tr)
         for bi, t, tm in b.real_calls():
             nme = mir._strip_generics(tm[1])
             if tm[2] and render(tm[2][0]) == "self.0":
@@ -318,7 +318,7 @@ def r3(ctx):
             nme = mir._strip_generics(t["f"]["def"])
             if not nme.endswith(BULK):
                 continue
-            bb = ctx.body(d)
+            bb = ctx.ibody(d)
             if common_idx.arg_field(bb, t["args"][0]) == (ORDERS, "0"):
                 # shared iteration (`values()`, `iter()`) is fine; BULK lists mutators / consumers only
                 if nme.endswith(("::into_iter", "::into_values")):
@@ -338,7 +338,7 @@ def r3(ctx):
 
 
 def r4(ctx):
-    b = ctx.fbody(name="update_from_account", self_adt="barter::engine::state::EngineState", trait="")
+    b = ctx.fibody(name="update_from_account", self_adt="barter::engine::state::EngineState", trait="")
     calls = b.real_calls()
     want = {
         "OrderSnapshot": ("InstrumentState::update_from_order_snapshot",
@@ -374,13 +374,13 @@ def r4(ctx):
     IS = "barter::engine::state::instrument::InstrumentState"
     for fn, callee in (("update_from_order_snapshot", "Orders::update_from_order_snapshot"),
                        ("update_from_cancel_response", "Orders::update_from_cancel_response")):
-        ib = ctx.fbody(name=fn, self_adt=IS, trait="")
+        ib = ctx.fibody(name=fn, self_adt=IS, trait="")
         cs = [(bi, t, tm) for bi, t, tm in ib.real_calls()]
         ok = len(cs) == 1 and mir.short(cs[0][2][1]) == callee and render(cs[0][2][2][0]) == "self.orders" and \
             cs[0][2][2][1][0] == "param" and ib.guard(cs[0][0]) == frozenset([frozenset()])
         ctx.check("InstrumentState::" + fn, ok, "forwards the report unchanged to this instrument's own Orders",
                   got=[render(c[2]) for c in cs], key="forward")
-    sb = ctx.fbody(name="update_from_account_snapshot", self_adt=IS, trait="")
+    sb = ctx.fibody(name="update_from_account_snapshot", self_adt=IS, trait="")
     cs = [(bi, t, tm) for bi, t, tm in sb.real_calls() if mir.short(tm[1]) == "InstrumentState::update_from_order_snapshot"]
     ok = len(cs) == 1 and render(cs[0][2][2][0]) == "self" and \
         render(cs[0][2][2][1]) == "Snapshot::Snapshot{0: Iterator::next(snapshot.orders).as:Some.0}"
@@ -394,7 +394,7 @@ def r4(ctx):
 
 def r5(ctx):
     IFR = "barter::engine::state::order::in_flight_recorder::InFlightRequestRecorder"
-    b = ctx.fbody(name="record_in_flight_open", self_adt=ORDERS, trait=IFR)
+    b = ctx.fibody(name="record_in_flight_open", self_adt=ORDERS, trait=IFR)
     ins = [(bi, t, tm) for bi, t, tm in b.real_calls() if mir._strip_generics(tm[1]).endswith("HashMap::insert")]
     ok = len(ins) == 1 and b.guard(ins[0][0]) == frozenset([frozenset()])
     ctx.check("Orders::record_in_flight_open", ok, "inserts an order under the request's cid on every path",
@@ -403,7 +403,7 @@ def r5(ctx):
         v = ins[0][2][2][2]
         # `Order::from(request)` is a constructor-like function and is inlined by the provenance engine
         if v[0] == "call" and v[1] in ctx.facts.bodies:
-            fb = ctx.body(v[1])
+            fb = ctx.ibody(v[1])
             v = mir.subst_params(fb.return_term(), v[2])
         f = dict(zip(v[2], v[3])) if v[0] == "agg" else {}
         ctx.check("Orders::record_in_flight_open",
@@ -412,7 +412,7 @@ def r5(ctx):
                   and render(f.get("quantity", ("const", "?", ""))) == "request.state.quantity",
                   "a sent open request is tracked as OpenInFlight with the request's own key and quantity",
                   sites=[ins[0][1]["sp"]], got={k: render(x) for k, x in f.items()} or render(v)[:200], key="open-in-flight")
-    b = ctx.fbody(name="record_in_flight_cancel", self_adt=ORDERS, trait=IFR)
+    b = ctx.fibody(name="record_in_flight_cancel", self_adt=ORDERS, trait=IFR)
     st = b.stores()
     ok = len(st) == 1 and render(_n(st[0][2])) == "self.0.[key].as:Some.0.state"
     if ok:
@@ -430,7 +430,7 @@ def r5(ctx):
 
 def r6(ctx):
     # open_meta
-    b = ctx.fbody(name="open_meta", self_adt=ACTIVE, trait="")
+    b = ctx.fibody(name="open_meta", self_adt=ACTIVE, trait="")
     got = {}
     for g, term, bi in b.expanded_cases(0):
         for conj in g:
@@ -441,7 +441,7 @@ def r6(ctx):
     want = {"OpenInFlight": "Option::None{}", "Open": "Option::Some{0: self.as:Open.0}", "CancelInFlight": "self.as:CancelInFlight.0.order"}
     ctx.check("ActiveOrderState::open_meta", got == want, "last exchange-confirmed open data per state", got=got, want=want, key="table")
     # quantity_remaining
-    q = ctx.fbody(name="quantity_remaining", self_adt="barter_execution::order::state::Open", trait="")
+    q = ctx.fibody(name="quantity_remaining", self_adt="barter_execution::order::state::Open", trait="")
     try:
         e = formula.to_sympy(ctx.facts, q.return_term())
         ok = formula.equal(e, sympy.Symbol("initial_quantity") - sympy.Symbol("self.filled_quantity"))
@@ -450,7 +450,7 @@ def r6(ctx):
         ok, got_s = False, str(ex)
     ctx.check("Open::quantity_remaining", ok, "remaining = initial quantity - filled quantity", got=got_s, key="formula")
     # to_active
-    t = ctx.fbody(name="to_active", self_adt="barter_execution::order::Order", trait="")
+    t = ctx.fibody(name="to_active", self_adt="barter_execution::order::Order", trait="")
     res = {}
     for g, term, bi in t.expanded_cases(0):
         for conj in g:
